@@ -34,7 +34,14 @@ impl Breaker {
     pub uninterp spec fn rule_spec(&self) -> Arc<Rule>;
     pub uninterp spec fn stat_spec(&self) -> Arc<CounterLeapArray>;
     #[verifier::external_body] pub fn stat(&self) -> (r: &Arc<CounterLeapArray>) ensures *r == self.stat_spec() { unimplemented!() }
+    #[verifier::external_body] pub fn bound_rule(&self) -> (r: &Arc<Rule>) ensures *r == self.rule_spec() { unimplemented!() }
 }
+/// `old_rule == r` (PartialEq of Arc<Rule> = PartialEq of Rule)
+#[verifier::external_body] pub fn rules_equal(a: &Arc<Rule>, b: &Arc<Rule>) -> (r: bool) ensures r == rule_eq(*a, *b) { unimplemented!() }
+/// `old_rule.is_stat_reusable(r)`
+#[verifier::external_body] pub fn is_stat_reusable(a: &Arc<Rule>, b: &Arc<Rule>) -> (r: bool) ensures r == stat_reusable(*a, *b) { unimplemented!() }
+/// stands for `.iter().enumerate()` (no Verus support): the idx-th element by reference
+#[verifier::external_body] pub fn nth_tc(v: &Vec<AC>, i: usize) -> (r: &AC) requires i < v.len() ensures *r == v@[i as int] { &v[i] }
 /// the generator table is only read here (sequential execution: nobody registers a generator during a reload)
 pub uninterp spec fn table(k: BreakerStrategy) -> Option<Generator>;
 /// a generator is a function of its arguments (the default ones are `XBreaker::new(rule)` / `::with_stat(rule, stat)`)
@@ -74,13 +81,21 @@ pub proof fn l_reuse_index(r: Arc<Rule>, old: Seq<AC>, k: int, bound: int)
     decreases old.len() - k
 { if k < old.len() && k < bound && !stat_reusable(old[k].rule_spec(), r) { l_reuse_index(r, old, k + 1, bound); } }
 
-/// ASSUMED contract (Kani proves it on the real function for lists of 2 breakers: crm_reuse_index_2):
-/// (first equal index or MAX, first statistics-reusable index before it or MAX)
-#[verifier::external_body]
-pub fn calculate_reuse_index_for(r: &Arc<Rule>, old_res_cbs: &Vec<AC>) -> (res: (usize, usize))
-    ensures res.0 as int == eq_index(*r, old_res_cbs@, 0),
-            res.1 as int == reuse_index(*r, old_res_cbs@, 0, eq_index(*r, old_res_cbs@, 0))
-{ unimplemented!() }
+/// characterisation => recursive definition (used by the extracted calculate_reuse_index_for)
+pub proof fn l_eq_char(r: Arc<Rule>, old: Seq<AC>, k: int, e: int)
+    requires 0 <= k <= e <= old.len(), old.len() < MAX,
+             forall|j: int| #![auto] k <= j < e ==> !rule_eq(old[j].rule_spec(), r),
+             e < old.len() ==> rule_eq(old[e].rule_spec(), r),
+    ensures eq_index(r, old, k) == (if e < old.len() { e } else { MAX as int })
+    decreases e - k
+{ if k < e { l_eq_char(r, old, k + 1, e); } }
+pub proof fn l_reuse_char(r: Arc<Rule>, old: Seq<AC>, k: int, bound: int, e: int)
+    requires 0 <= k, old.len() < MAX, k <= e,
+             forall|j: int| #![auto] k <= j < e && j < old.len() && j < bound ==> !stat_reusable(old[j].rule_spec(), r),
+             (e < old.len() && e < bound && stat_reusable(old[e].rule_spec(), r)) || e >= old.len() || e >= bound,
+    ensures reuse_index(r, old, k, bound) == (if e < old.len() && e < bound { e } else { MAX as int })
+    decreases e - k
+{ if k < e && k < old.len() && k < bound { l_reuse_char(r, old, k + 1, bound, e); } }
 
 /// what handling one rule does to (new list, remaining old list)
 pub open spec fn step(res: &String, rule: Arc<Rule>, st: (Seq<AC>, Seq<AC>)) -> (Seq<AC>, Seq<AC>) {
@@ -151,6 +166,54 @@ use tr::*;
 use std::sync::Arc;
 
 pub exec static GEN_FUN_MAP: GenMapLock ensures true { GenMapLock { p: 0 } }
+
+// ---- extracted from core/circuitbreaker/rule_manager.rs (extract-fn) ----
+pub fn calculate_reuse_index_for(
+    r: &Arc<Rule>,
+    old_res_cbs: &Vec<Arc<Breaker>>,
+) -> (res: (usize, usize))
+    requires
+        old_res_cbs@.len() < MAX,
+    ensures
+        res.0 as int == eq_index(*r, old_res_cbs@, 0),
+        res.1 as int == reuse_index(*r, old_res_cbs@, 0, eq_index(*r, old_res_cbs@, 0)),
+{
+    // the index of equivalent rule in old circuit breaker slice
+    let mut eq_idx = usize::MAX;
+    // the index of statistic reusable rule in old circuit breaker slice
+    let mut reuse_stat_idx = usize::MAX;
+
+    let mut nxt: usize = 0; while nxt < old_res_cbs.len() 
+        invariant_except_break
+            eq_idx == MAX,
+
+        invariant
+            nxt <= old_res_cbs.len(),
+            old_res_cbs@.len() < MAX,
+            eq_idx != MAX ==> eq_idx < nxt,
+            forall|j: int| #![auto] 0 <= j < nxt && (eq_idx == MAX || j < eq_idx) ==> !rule_eq(old_res_cbs@[j].rule_spec(), *r),
+            reuse_stat_idx == MAX ==> forall|j: int| #![auto] 0 <= j < nxt && (eq_idx == MAX || j < eq_idx) ==> !stat_reusable(old_res_cbs@[j].rule_spec(), *r),
+            reuse_stat_idx != MAX ==> reuse_stat_idx < nxt && (eq_idx == MAX || reuse_stat_idx < eq_idx) && stat_reusable(old_res_cbs@[reuse_stat_idx as int].rule_spec(), *r) && forall|j: int| #![auto] 0 <= j < reuse_stat_idx ==> !stat_reusable(old_res_cbs@[j].rule_spec(), *r),
+        ensures
+            eq_idx != MAX ==> eq_idx < old_res_cbs.len() && rule_eq(old_res_cbs@[eq_idx as int].rule_spec(), *r),
+            eq_idx == MAX ==> nxt == old_res_cbs.len(),
+        decreases old_res_cbs.len() - nxt,
+    { let idx = nxt; let old_cb = nth_tc(old_res_cbs, idx); nxt += 1;
+        let old_rule = old_cb.bound_rule();
+        if rules_equal(old_rule, r) {
+            // break if there is equivalent rule
+            eq_idx = idx;
+            break;
+        }
+        // search the index of first stat reusable rule
+        if reuse_stat_idx == usize::MAX && is_stat_reusable(old_rule, r) {
+            reuse_stat_idx = idx;
+        }
+    }
+    proof { let e = if eq_idx == MAX { old_res_cbs@.len() as int } else { eq_idx as int }; l_eq_char(*r, old_res_cbs@, 0, e); let bound = eq_index(*r, old_res_cbs@, 0); let q = if reuse_stat_idx == MAX { old_res_cbs@.len() as int } else { reuse_stat_idx as int }; l_reuse_char(*r, old_res_cbs@, 0, bound, q); }
+        (eq_idx, reuse_stat_idx)
+}
+
 
 // ---- extracted from core/circuitbreaker/rule_manager.rs (extract-fn) ----
 pub fn build_resource_circuit_breaker(
